@@ -427,6 +427,7 @@ def runCase (j : Json) : E Json := do
     match fn with
     | "transpose" => pure (show1 (ShapeFns.transposeF (← jNats (← j.getObjVal? "shape")) (← jNats (← j.getObjVal? "perm"))))
     | "moveaxis" => pure (show1 (ShapeFns.moveaxisF (← jNats (← j.getObjVal? "shape")) (← nat "src") (← nat "dst")))
+    | "moveaxis_seq" => pure (show1 (ShapeFns.moveaxisSeqF (← jNats (← j.getObjVal? "shape")) (← jNats (← j.getObjVal? "src")) (← jNats (← j.getObjVal? "dst"))))
     | "swapaxes" => pure (show1 (ShapeFns.swapaxesF (← jNats (← j.getObjVal? "shape")) (← nat "a") (← nat "b")))
     | "expand_dims" => pure (show1 (ShapeFns.expandDimsF (← jNats (← j.getObjVal? "shape")) (← nat "axis")))
     | "reshape" => pure (show1 (ShapeFns.reshapeF (← jNats (← j.getObjVal? "shape")) (← jNats (← j.getObjVal? "newshape"))))
